@@ -202,11 +202,11 @@ func (s *Service) Open() error {
 func (s *Service) Close() error {
 	s.Logger.Info("Shutting down hinted handoff service")
 	s.mu.Lock()
-	defer s.mu.Unlock()
 
 	for _, processors := range s.processors {
 		for _, p := range processors {
 			if err := p.Close(); err != nil {
+				s.mu.Unlock()
 				return err
 			}
 		}
@@ -219,8 +219,14 @@ func (s *Service) Close() error {
 	if s.closing != nil {
 		close(s.closing)
 	}
+	// The purge loop takes s.mu on every tick: it must be able to get it,
+	// see the closed channel and return, so the lock is not held while waiting.
+	s.mu.Unlock()
 	s.wg.Wait()
+
+	s.mu.Lock()
 	s.closing = nil
+	s.mu.Unlock()
 
 	return nil
 }
